@@ -26,6 +26,7 @@ ASSUMPTIONS = [
 
 DEFS = ["(Definition/A, (Red))", "(Definition/B/#, (Label/#))"]
 GRID = [0.0, 1.0, 2.0, 3.0]
+FIXED_INNER = "Rectangle"
 INNER = ["Square", "Circle", "Triangle", "Ellipse", "Cross", "Arrow", "Star", "Cube"]
 
 
@@ -38,6 +39,9 @@ def items_menu(thorough):
     m.append(("delay-dur", 1.0, 1.5))
     m.append(("on-group", "A"))      # Onset with the optional content group: listed with its content
     m.append(("inset", "A"))         # a marker inside an open process: ends nothing, starts nothing, stays in the annotation
+    # Duration groups that all have the same content: distinct processes whose listed text is identical
+    m.append(("dur-fixed", 1, "s"))
+    m.append(("dur-fixed", 2.5, "s"))
     if thorough:
         m.append(("inset", "B/x"))
         m.append(("delay-dur", 0.5, 0.5))
@@ -94,6 +98,8 @@ def reference(rows):
                 tag = INNER[inner_i % len(INNER)]
                 inner_i += 1
                 events.append((t, seq, "dur", seconds(it[1], it[2]), tag))
+            elif it[0] == "dur-fixed":
+                events.append((t, seq, "dur", seconds(it[1], it[2]), FIXED_INNER))
             elif it[0] == "delay-on":
                 events.append((t + it[2], seq, "on", it[1], None))
             elif it[0] == "delay-dur":
@@ -132,6 +138,10 @@ def reference(rows):
                     open_by_name[key] = p
                     base[k].append(text)
             elif kind == "dur":
+                if b == FIXED_INNER:
+                    if ("fixed", a) in used:
+                        return None        # the same group twice in one time point: a repeated group, not a valid annotation
+                    used.add(("fixed", a))
                 p = Proc("dur", None, k, f"(({b}))")
                 end_time = t + a
                 p.end = next((j for j, tt in enumerate(times) if tt >= end_time), len(times))
@@ -175,6 +185,9 @@ def row_text(items, inner_start):
             Ls = str(int(L)) if float(L).is_integer() else str(L)
             parts.append(f"(Duration/{Ls}{unit}, ({INNER[i % len(INNER)]}))")
             i += 1
+        elif it[0] == "dur-fixed":
+            L = it[1]
+            parts.append(f"(Duration/{int(L) if float(L).is_integer() else L} {it[2]}, ({FIXED_INNER}))")
         elif it[0] == "delay-on":
             parts.append(f"(Def/{it[1]}, Onset, Delay/{it[2]} s)")
         elif it[0] == "delay-dur":
@@ -316,10 +329,11 @@ def worker(rec, shard, nshards, nrows, thorough, seed):
     rowkinds = singles + pairs
     # the longest histories of the quick tier use a reduced row menu (every item kind once, the multi-Delay pairs kept)
     keep = {("on", "A"), ("on", "B/x"), ("off", "A"), ("off", "B/x"), ("tag",), ("dur", 1.5, "s"), ("dur", 1500, "ms"),
-            ("delay-on", "A", 0.5), ("delay-dur", 1.0, 1.5)}
+            ("delay-on", "A", 0.5), ("delay-dur", 1.0, 1.5), ("dur-fixed", 2.5, "s")}
     small = [i for i, rk in enumerate(rowkinds) if (len(rk) == 0 or (len(rk) == 1 and rk[0] in keep)
                                                     or (len(rk) == 2 and rk[0][0].startswith("delay")))]
-    keep4 = {("on", "A"), ("off", "A"), ("on", "B/x"), ("tag",), ("dur", 1.5, "s"), ("delay-on", "A", 0.5), ("delay-dur", 1.0, 1.5)}
+    keep4 = {("on", "A"), ("off", "A"), ("on", "B/x"), ("tag",), ("dur", 1.5, "s"), ("delay-on", "A", 0.5), ("delay-dur", 1.0, 1.5),
+             ("dur-fixed", 2.5, "s")}
     tiny = [i for i, rk in enumerate(rowkinds) if len(rk) == 0 or (len(rk) == 1 and rk[0] in keep4)]
     cases = []
     for n in range(1, nrows + 1):
@@ -343,8 +357,25 @@ def worker(rec, shard, nshards, nrows, thorough, seed):
             check_history(env, rec, rows)
         if ci % 3001 == 0:
             rec.sample({"rows": [row_text(list(rowkinds[k]), 0)[0] for k in combo], "onset_grid": GRID})
-    # non-monotone onsets must be rejected
+    # non-monotone onsets must be rejected - also when an n/a onset sits between (or beside) the rows that are out of order
     if shard == 0:
+        import pandas as pd
+        from hed.models.tabular_input import TabularInput
+        from hed.tools.analysis.event_manager import EventManager
+        from hed.errors.exceptions import HedFileError
+        for ons in itertools.product(["0.0", "1.0", "2.0", "n/a"], repeat=3):
+            nums = [float(x) for x in ons if x != "n/a"]
+            if "n/a" not in ons or nums == sorted(nums):
+                continue
+            df = pd.DataFrame({"onset": list(ons), "HED": ["Blue", "Green", "Red"]})
+            rec.n("evaluations")
+            try:
+                EventManager(TabularInput(df), env.schema, extra_defs=env.dd)
+                rec.violation("C20:unordered-onsets-accepted:with-n/a", onsets=list(ons))
+            except HedFileError:
+                rec.outcome("unordered-rejected")
+            except Exception as e:
+                rec.violation("C20:unordered-onsets-wrong-exception:" + type(e).__name__, onsets=list(ons), error=repr(e)[:200])
         import pandas as pd
         from hed.models.tabular_input import TabularInput
         from hed.tools.analysis.event_manager import EventManager
